@@ -131,6 +131,8 @@ impl WorkerTree {
         let work_timer = Timer::now();
 
         'work_loop: loop {
+            #[cfg(feature = "verif-hooks")]
+            super::verif_hooks::verif_probe("work_loop_sweep");
             let mut add_edges = Vec::new();
 
             match toposort(&self.graph, None) {
